@@ -27,6 +27,7 @@ type Exec struct {
 	rgMode     bool
 	edgeFrom   map[*State]*ssa.BasicBlock
 	rg         *RG
+	readLog    map[string]bool
 }
 
 type exitRec struct {
@@ -516,6 +517,21 @@ func (ex *Exec) assumeOld(st *State, v Term, guard Term) {
 	case SIface:
 		ex.cx.assume(implies(guard, ex.refOld(app(SRef, "ival", v), ap)))
 	}
+}
+
+// refOldStrict: r designates a location of an object allocated before ap
+// (null, boxes and globals included).
+func (ex *Exec) refOldStrict(r, ap Term) Term {
+	isObj := func(x Term) Term { return app(SBool, "(_ is obj)", x) }
+	ge := func(x Term) Term { return and(isObj(x), app(SBool, ">=", app(SInt, "oid", x), ap)) }
+	fb := app(SRef, "fbase", r)
+	eb := app(SRef, "ebase", r)
+	isF := app(SBool, "(_ is fld)", r)
+	isE := app(SBool, "(_ is elem)", r)
+	return not(or(ge(r), and(isF, ge(fb)), and(isE, ge(eb)),
+		and(isF, app(SBool, "(_ is fld)", fb), ge(app(SRef, "fbase", fb))),
+		and(isF, app(SBool, "(_ is elem)", fb), ge(app(SRef, "ebase", fb))),
+		and(isE, app(SBool, "(_ is fld)", eb), ge(app(SRef, "fbase", eb)))))
 }
 
 func (ex *Exec) refOld(r, ap Term) Term {
